@@ -14,6 +14,7 @@ import (
 	"github.com/kercylan98/vivid/internal/remoting"
 	"github.com/kercylan98/vivid/internal/scheduler"
 	"github.com/kercylan98/vivid/internal/sugar"
+	"github.com/kercylan98/vivid/internal/verifhook"
 	"github.com/kercylan98/vivid/pkg/log"
 	"github.com/kercylan98/vivid/pkg/metrics"
 	"github.com/kercylan98/vivid/pkg/ves"
@@ -110,6 +111,7 @@ func (s *System) ActorOf(actor vivid.Actor, options ...vivid.ActorOption) (vivid
 
 func (s *System) Start() error {
 	var stateError = func(s *System) error {
+		verifhook.At("sys.start.lock", s, nil)
 		s.statusLock.Lock()
 		switch s.status {
 		case start:
@@ -149,10 +151,14 @@ func (s *System) Start() error {
 	s.Logger().Debug("actor system started")
 
 	// 守护系统上下文
+	verifhook.At("sys.start.guardian", s, nil)
 	go func() {
+		verifhook.At("sys.g.park", s, nil)
 		<-s.options.Context.Done()
+		verifhook.At("sys.g.wait", s, nil)
 		// stop 内部自行获取 statusLock；此处若再持锁会与其自身死锁，导致之后所有 Start/Stop 永久阻塞
 		_ = s.stop(false) // 无意义错误
+		verifhook.At("sys.g.exit", s, nil)
 	}()
 	return nil
 }
@@ -163,6 +169,7 @@ func (s *System) Stop(timeout ...time.Duration) error {
 func (s *System) stop(checkLog bool, timeout ...time.Duration) error {
 	// 将锁范围限定在函数内部校验状态，避免每次 return 都重复编写锁释放代码
 	var stateError = func(s *System) error {
+		verifhook.At("sys.stop.lock", s, nil)
 		s.statusLock.Lock()
 		defer s.statusLock.Unlock()
 		switch s.status {
@@ -185,6 +192,7 @@ func (s *System) stop(checkLog bool, timeout ...time.Duration) error {
 		return stateError
 	}
 
+	verifhook.At("sys.stop.kill", s, nil)
 	// 优先离开集群（未启用集群时 clusterContext 为 nil）
 	if s.clusterContext != nil {
 		s.clusterContext.Leave()
@@ -196,6 +204,7 @@ func (s *System) stop(checkLog bool, timeout ...time.Duration) error {
 	if s.Context != nil {
 		s.Context.Kill(s.Context.Ref(), true, "actor system stop")
 		s.cancel()
+		verifhook.At("sys.stop.wait", s, nil)
 		select {
 		case <-s.guardClosedSignal:
 			break
@@ -206,6 +215,7 @@ func (s *System) stop(checkLog bool, timeout ...time.Duration) error {
 	}
 
 	// 清理调度器
+	verifhook.At("sys.stop.sched", s, nil)
 	s.scheduler.Stop()
 
 	s.Logger().Debug("actor system stopped")
